@@ -388,8 +388,9 @@ theorem C16_step_defined (cfg : Config) (d : StepDraw) (hi : d.i < cfg.length) (
 dyadic hyperedges `fixed` drawn by the inner model): for **every** `k`, the `k`-th yielded hypergraph is
 well-formed, its nodes are `< N`, its hyperedges have size ≥ 2 and at most any bound `D ≥ 2` on the sizes of the
 size sequence; with `fixed = []`: no size `≥ 2` exceeds its conditioned count — matching or not —, no node exceeds
-its conditioned degree when the sampler reports matching sequences, and when no weight was zero and no two
-hyperedges of the chain state coincide, the counts are exact and (equal totals) so are the degrees. -/
+its conditioned degree when the sampler reports matching sequences, and whenever no two hyperedges of the chain
+state coincide, the counts are exact and (equal totals) so are the degrees - for every list of quantiles scipy may
+deliver (the weights are `truncWeights q`, at least 1 after the repair of D44; no hypothesis on the weights). -/
 theorem C16_sample_seqs (degSeq : List Nat) (dimSeq : List (Nat × Nat)) (fd fm : Bool) (fixed : Config)
     (t : OwnTape) (flag : Bool) (outs : List (List (Hye × Nat)))
     (hfix : ∀ e ∈ fixed, e.Nodup ∧ e.length = 2 ∧ ∀ x ∈ e, x < degSeq.length)
@@ -402,8 +403,8 @@ theorem C16_sample_seqs (degSeq : List Nat) (dimSeq : List (Nat × Nat)) (fd fm 
         (∀ s, 2 ≤ s → sizeCount s (outs[k].map (·.1)) ≤ dimCount dimSeq s) ∧
         (flag = true → (∀ q ∈ dimSeq, 2 ≤ q.1) →
           ∀ n (hn : n < degSeq.length), degOf n (outs[k].map (·.1)) ≤ degSeq[n]) ∧
-        ∃ y w, t.weights[k]? = some w ∧ outputStage y w none = some outs[k] ∧
-          ((∀ x ∈ w, 0 < x) → (y.map canon).Nodup →
+        ∃ y q, t.quantiles[k]? = some q ∧ outputStage y (truncWeights q) none = some outs[k] ∧
+          ((y.map canon).Nodup →
             (∀ s, 2 ≤ s → sizeCount s (outs[k].map (·.1)) = dimCount dimSeq s) ∧
             (flag = true → (∀ q ∈ dimSeq, 2 ≤ q.1) →
               degSeq.sum = (dimSeq.map (fun p => p.1 * p.2)).sum →
@@ -428,7 +429,7 @@ theorem C16_sample_seqs (degSeq : List Nat) (dimSeq : List (Nat × Nat)) (fd fm 
       obtain ⟨w, hw, ho⟩ := hout k hk' hk
       obtain ⟨d1, d2, d3, d4⟩ := c2 ys[k] (List.getElem_mem hk')
       have hny : AllNodup ys[k] := d4 (fun e he => (hfix e he).1)
-      obtain ⟨v1, v2, v3, v4, v5⟩ := C16_output_valid ys[k] w none os[k] hny (by simp) ho
+      obtain ⟨v1, v2, v3, v4, v5⟩ := C16_output_valid ys[k] (truncWeights w) none os[k] hny (by simp) ho
       refine ⟨⟨v1, fun p hp => ⟨v2 p hp, v3 p hp⟩⟩, ?_, ?_⟩
       · intro p hp
         refine ⟨?_, ?_⟩
@@ -453,7 +454,7 @@ theorem C16_sample_seqs (degSeq : List Nat) (dimSeq : List (Nat × Nat)) (fd fm 
       · intro hfx
         subst hfx
         simp only [List.append_nil] at d1 d2
-        obtain ⟨b1, b2, b3⟩ := C16_output_bounds ys[k] w os[k] ho
+        obtain ⟨b1, b2, b3⟩ := C16_output_bounds ys[k] (truncWeights w) os[k] ho
         refine ⟨?_, ?_, ys[k], w, hw, ho, ?_⟩
         · intro s hs2
           have := b2 s
@@ -464,8 +465,8 @@ theorem C16_sample_seqs (degSeq : List Nat) (dimSeq : List (Nat × Nat)) (fd fm 
           have := b1 n
           rw [d1 n] at this
           exact Nat.le_trans this ((m4 hf' hall).1 n hn)
-        · intro hpos hnd
-          obtain ⟨e1, e2⟩ := b3 hpos hnd
+        · intro hnd
+          obtain ⟨e1, e2⟩ := b3 (truncWeights_pos w) hnd
           refine ⟨fun s hs2 => by rw [e2 s, d2 s, m3 s hs2], ?_⟩
           intro hf hall htot n hn
           have hf' : st.flag = true := by rw [hflag]; exact hf
@@ -474,8 +475,9 @@ theorem C16_sample_seqs (degSeq : List Nat) (dimSeq : List (Nat × Nat)) (fd fm 
 
 /-- `sample(initial_hyg=h)`: `labels` = the sorted distinct nodes of `h`, `edges` = its hyperedges (sets).  For
 **every** `k` the `k`-th yielded hypergraph is well-formed, its nodes are nodes of `h`, every hyperedge has the
-size of a hyperedge of `h`; no node exceeds its degree in `h`, no size its count in `h`; and when no weight was
-zero and no two hyperedges of the chain state coincide, all degrees and size counts are exactly those of `h`. -/
+size of a hyperedge of `h`; no node exceeds its degree in `h`, no size its count in `h`; and whenever no two
+hyperedges of the chain state coincide, all degrees and size counts are exactly those of `h` - for every list of
+quantiles scipy may deliver (weights `truncWeights q`; no hypothesis on the weights). -/
 theorem C16_sample_hyg (labels : List Nat) (edges : Config) (t : OwnTape)
     (outs : List (List (Hye × Nat))) (hl : labels.Pairwise (· < ·)) (he : AllNodup edges)
     (h : sampleFromHyg labels edges t = some outs) :
@@ -484,8 +486,8 @@ theorem C16_sample_hyg (labels : List Nat) (edges : Config) (t : OwnTape)
       (∀ p ∈ outs[k], (∀ x ∈ p.1, x ∈ labels) ∧ ∃ e ∈ edges, p.1.length = e.length) ∧
       (∀ x ∈ labels, degOf x (outs[k].map (·.1)) ≤ degOf x edges) ∧
       (∀ s, sizeCount s (outs[k].map (·.1)) ≤ sizeCount s edges) ∧
-      ∃ y w, t.weights[k]? = some w ∧ outputStage y w (some labels) = some outs[k] ∧
-        ((∀ x ∈ w, 0 < x) → (y.map canon).Nodup →
+      ∃ y q, t.quantiles[k]? = some q ∧ outputStage y (truncWeights q) (some labels) = some outs[k] ∧
+        ((y.map canon).Nodup →
           (∀ x ∈ labels, degOf x (outs[k].map (·.1)) = degOf x edges) ∧
           (∀ s, sizeCount s (outs[k].map (·.1)) = sizeCount s edges)) := by
   unfold sampleFromHyg at h
@@ -509,8 +511,8 @@ theorem C16_sample_hyg (labels : List Nat) (edges : Config) (t : OwnTape)
     simp only [List.append_nil] at d1 d2 d3
     have hny : AllNodup ys[k] := d4 (by intro e he; simp at he)
     obtain ⟨v1, v2, v3, v4, v5⟩ :=
-      C16_output_valid ys[k] w (some labels) outs[k] hny (by intro ls hls; cases hls; exact hl) ho
-    obtain ⟨b1, b2, b3⟩ := C16_output_bounds_labels ys[k] w labels outs[k] hnd ho
+      C16_output_valid ys[k] (truncWeights w) (some labels) outs[k] hny (by intro ls hls; cases hls; exact hl) ho
+    obtain ⟨b1, b2, b3⟩ := C16_output_bounds_labels ys[k] (truncWeights w) labels outs[k] hnd ho
     have hdeg : ∀ i (hi : i < labels.length), degOf labels[i] edges = degOf i cfg := by
       intro i hi
       have e1 : labels[i] = lab labels i := by simp [lab, List.getElem?_eq_getElem hi]
@@ -534,8 +536,8 @@ theorem C16_sample_hyg (labels : List Nat) (edges : Config) (t : OwnTape)
     · intro s
       rw [hsz s, ← d2 s]
       exact b2 s
-    · intro hpos hndy
-      obtain ⟨e1, e2⟩ := b3 hpos hndy
+    · intro hndy
+      obtain ⟨e1, e2⟩ := b3 (truncWeights_pos w) hndy
       refine ⟨?_, fun s => by rw [e2 s, hsz s, d2 s]⟩
       intro x hx
       obtain ⟨i, hi, hxi⟩ := List.getElem_of_mem hx
@@ -554,6 +556,37 @@ theorem C16_sequence_prefix (cfg fixed : Config) (labels : Option (List Nat)) (t
     simp only [hm, Option.bind_some] at h
     simp only [mcmcRoutine_take k hm, Option.bind_some]
     exact outputsOf_take k h
+
+/-! ## truncated-Poisson weights (D44) -/
+
+/-- the repaired `sample_truncated_poisson` (`np.maximum(quantile, 1)`): every weight is positive whatever
+quantiles scipy delivers, so the filter `np.where(weights > 0)` of `sample` drops nothing: the yielded hypergraph
+has one (weight-carrying) entry per hyperedge of the chain state before duplicates are merged, and its total weight
+is the sum of the clamped quantiles. -/
+theorem C16_trunc_weights (cfg : Config) (qs : List Nat) (h : qs.length = cfg.length) :
+    (∀ w ∈ truncWeights qs, 1 ≤ w) ∧
+    dropZeros (cfg.map canon) (truncWeights qs) = (cfg.map canon).zip (truncWeights qs) ∧
+    (dropZeros (cfg.map canon) (truncWeights qs)).map (·.1) = cfg.map canon := by
+  have hpos := truncWeights_pos qs
+  have hlen : (truncWeights qs).length = (cfg.map canon).length := by simp [truncWeights, h]
+  refine ⟨fun w hw => hpos w hw, ?_, dropZeros_all _ _ hlen hpos⟩
+  unfold dropZeros
+  rw [List.filter_eq_self]
+  intro p hp
+  have := hpos p.2 (List.of_mem_zip hp).2
+  simpa using this
+
+/-- D44, the unrepaired weights (quantiles used as they come): a quantile 0 makes the output stage drop a
+hyperedge although no two hyperedges of the chain state coincide - node 1 and size 2 fall below their
+conditioned values.  With the clamp (`truncWeights`) the same draws keep everything. -/
+theorem C16_unclamped_weight_drops :
+    ∃ (cfg : Config) (qs : List Nat) (out : List (Hye × Nat)),
+      (cfg.map canon).Nodup ∧ outputStage cfg qs none = some out ∧
+      degOf 1 (out.map (·.1)) < degOf 1 cfg ∧ sizeCount 2 (out.map (·.1)) < sizeCount 2 cfg ∧
+      ∃ out', outputStage cfg (truncWeights qs) none = some out' ∧
+        degOf 1 (out'.map (·.1)) = degOf 1 cfg ∧ sizeCount 2 (out'.map (·.1)) = sizeCount 2 cfg :=
+  ⟨[[0, 4], [1, 5], [2, 3, 6]], [1, 0, 7], [([0, 4], 1), ([2, 3, 6], 7)], by decide, by decide, by decide, by decide,
+    [([0, 4], 1), ([1, 5], 1), ([2, 3, 6], 7)], by decide, by decide, by decide⟩
 
 /-! ## seed -/
 
@@ -613,11 +646,12 @@ example : outputStage [[2, 1], [1, 2], [3, 4], [5, 6]] [1, 2, 0, 4] none = some 
 -- nothing dropped, nothing merged: the equality case
 example : outputStage [[2, 1], [0, 2], [3, 4]] [1, 2, 5] none = some [([1, 2], 1), ([0, 2], 2), ([3, 4], 5)] := by decide
 
--- C16_sample_seqs: non-matching sequences, burn-in 1, thinning blocks of length 1 and 0, a duplicate and a zero weight
+-- C16_sample_seqs: non-matching sequences, burn-in 1, thinning blocks of length 1 and 0, a duplicate and a zero
+-- quantile (second sample: its hyperedge keeps weight 1 and is merged with its duplicate)
 example : sampleFromSeqs [4, 1, 1] [(2, 3)] true true []
     ⟨[[0], [2], [], [0], [1], [], [], [0], [], [1]], [⟨0, 1, [1], true⟩], [[⟨1, 2, [1], true⟩], []],
       [[1, 2, 3], [0, 1, 1]]⟩ =
-    some (false, [[([0, 1], 3), ([0, 2], 3)], [([0, 1], 1), ([0, 2], 1)]]) := by decide
+    some (false, [[([0, 1], 3), ([0, 2], 3)], [([0, 1], 2), ([0, 2], 1)]]) := by decide
 -- matching sequences, an accepted and a rejected proposal; degrees 2,2,1,1 and two hyperedges of size 3 throughout
 example : sampleFromSeqs [2, 2, 1, 1] [(3, 2)] true true []
     ⟨[[0, 1], [3], [], [2, 0, 1]], [⟨0, 1, [2], true⟩], [[⟨1, 0, [2], true⟩], [⟨0, 1, [2], false⟩]],
@@ -625,12 +659,17 @@ example : sampleFromSeqs [2, 2, 1, 1] [(3, 2)] true true []
     some (true, [[([0, 1, 3], 1), ([0, 1, 2], 2)], [([0, 1, 3], 3), ([0, 1, 2], 1)]]) := by decide
 -- sampling from the model: sequences and one dyadic hyperedge delivered by the inner model
 example : sampleFromSeqs [1, 1, 1, 0] [(3, 1)] false false [[0, 3]] ⟨[[2, 0, 1]], [], [[], []], [[2, 1], [0, 4]]⟩ =
-    some (true, [[([0, 1, 2], 2), ([0, 3], 1)], [([0, 3], 4)]]) := by decide
+    some (true, [[([0, 1, 2], 2), ([0, 3], 1)], [([0, 1, 2], 1), ([0, 3], 4)]]) := by decide
 
--- C16_sample_hyg: labels 10..50, three hyperedges, two accepted proposals, a zero weight in the second sample
+-- C16_sample_hyg: labels 10..50, three hyperedges, two accepted proposals, a zero quantile in the second sample
+-- (the hyperedge stays, with weight 1)
 example : sampleFromHyg [10, 20, 30, 40, 50] [[10, 20, 30], [30, 40], [20, 50]]
     ⟨[], [⟨0, 1, [1, 3], true⟩], [[⟨2, 1, [0, 4], true⟩], []], [[1, 2, 2], [1, 0, 3]]⟩ =
-    some [[([20, 30, 40], 1), ([20, 30], 2), ([10, 50], 2)], [([20, 30, 40], 1), ([10, 50], 3)]] := by decide
+    some [[([20, 30, 40], 1), ([20, 30], 2), ([10, 50], 2)], [([20, 30, 40], 1), ([20, 30], 1), ([10, 50], 3)]] := by decide
+-- C16_trunc_weights / C16_unclamped_weight_drops: structurally-zero Poisson parameters (quantile 0 for the two
+-- cross-community dyads), no MCMC step: the sample is the initial hypergraph, every weight positive
+example : sampleFromHyg [0, 1, 2, 3, 4, 5, 6, 7] [[0, 4], [1, 5], [2, 3, 6]] ⟨[], [], [[]], [[0, 0, 7]]⟩ =
+    some [[([0, 4], 1), ([1, 5], 1), ([2, 3, 6], 7)]] := by decide
 
 -- C16_seeded: a run of the repaired sampler that returns
 example : samplerRunModel true
